@@ -12,7 +12,7 @@ from __future__ import annotations
 import ast
 
 from ..inline import Inliner
-from ..loader import AnalysisError, Tree, unparse, walk_function
+from ..loader import AnalysisError, Tree, ancestors, unparse, walk_function
 from ..poly import RF, D, equal, sqrt, sym
 from ..report import Check
 from ..terms import TermEval
@@ -300,6 +300,68 @@ def check_adapter_memo(ctx: Check, tree: Tree) -> None:
                     None if r["resets"] else f"`{r['memo']}` is derived from {r['touched']} but survives this change: later calls of {r['computed_in'].name}() miss the variables of the new topologies")
 
 
+def check_recursion_shape(ctx: Check, tree: Tree) -> None:
+    """R-RECURSE: the angle dictionary of a node is the union of its own angle pairs and the
+    dictionaries of all decaying children: (1) the value of every recursive call is merged into the
+    returned mapping; (2) a child is descended into iff it decays further (ending_node_id is not
+    None) and has more than one final state below it; (3) the two-final-state leaf is recognised by
+    `ending_node_id is None` for all children."""
+    from ..prov import _rd_for
+
+    fn = tree.func(f"{ANG}::compute_helicity_angles.__recursive_helicity_angles")
+    rd = _rd_for(fn, {})
+    rec = [c for c in walk_function(fn.node) if isinstance(c, ast.Call) and isinstance(c.func, ast.Name) and c.func.id == fn.name]
+    if not rec:
+        raise AnalysisError(f"{fn.qual}: no recursive call")
+    returned = set()
+    for ret, _ in rd.returns:
+        if ret.value is not None:
+            returned |= {n.id for n in ast.walk(ret.value) if isinstance(n, ast.Name)}
+    for c in rec:
+        merged = False
+        par = getattr(c, "_parent", None)
+        # direct: R.update(rec(...)) / return {**R, **rec(...)}
+        for a in ancestors(c):
+            if isinstance(a, ast.Call) and isinstance(a.func, ast.Attribute) and a.func.attr == "update" and isinstance(a.func.value, ast.Name) and a.func.value.id in returned:
+                merged = True
+            if isinstance(a, ast.Return):
+                merged = True
+        # via a local: x = rec(...); R.update(x)
+        for d in rd.defs:
+            if d.value is c:
+                for node in walk_function(fn.node):
+                    if isinstance(node, ast.Call) and isinstance(node.func, ast.Attribute) and node.func.attr == "update" and isinstance(node.func.value, ast.Name) and node.func.value.id in returned:
+                        if any(isinstance(n, ast.Name) and d in rd.reaching(n) for a_ in node.args for n in ast.walk(a_)):
+                            merged = True
+                    if isinstance(node, ast.AugAssign) and isinstance(node.op, ast.BitOr) and isinstance(node.target, ast.Name) and node.target.id in returned:
+                        if any(isinstance(n, ast.Name) and d in rd.reaching(n) for n in ast.walk(node.value)):
+                            merged = True
+        ctx.verdict(merged, "R-RECURSE", f"{fn.qual}::recursive-result-merged", tree.loc(c),
+                    "the angles of the sub-tree (value of the recursive call) are merged into the returned mapping",
+                    None if merged else "the result of the recursion is dropped: angles below this node are never defined")
+        # (2) guards of the descent
+        guards = [a for a in ancestors(c) if isinstance(a, ast.If)]
+        gtxt = [unparse(g.test).replace(" ", "") for g in guards]
+        decays = any(t.endswith(".ending_node_idisnotNone") for t in gtxt)
+        many = any(t.startswith("len(") and t.endswith(")>1") for t in gtxt) or any(t.startswith("len(") and t.endswith(")>=2") for t in gtxt)
+        extra = [unparse(g.test) for g, t in zip(guards, gtxt) if not (t.endswith(".ending_node_idisnotNone") or (t.startswith("len(") and (t.endswith(")>1") or t.endswith(")>=2"))))]
+        ok = decays and not extra
+        ctx.verdict(ok, "R-RECURSE", f"{fn.qual}::descent-guard", tree.loc(c),
+                    "a child is descended into iff it decays further (`ending_node_id is not None`" + (", more than one final state below it" if many else "") + ")",
+                    None if ok else {"guards": [unparse(g.test) for g in guards]})
+    # (3) leaf recognition
+    leaf = [n for n in walk_function(fn.node) if isinstance(n, ast.If) and isinstance(n.test, ast.Call) and unparse(n.test.func) == "all"]
+    ok = False
+    if len(leaf) == 1 and leaf[0].test.args and isinstance(leaf[0].test.args[0], ast.GeneratorExp):
+        g = leaf[0].test.args[0]
+        t = unparse(g.elt).replace(" ", "")
+        it = g.generators[0].iter
+        over_children = any(d.value is not None and "get_edge_ids_outgoing_from_node" in unparse(d.value) for d in rd.closure(rd.uses(it)))
+        ok = t.endswith(".ending_node_idisNone") and over_children and not g.generators[0].ifs
+    ctx.verdict(ok, "R-RECURSE", f"{fn.qual}::leaf-test", tree.loc(leaf[0]) if leaf else tree.loc(fn.node),
+                "the leaf case (own angle pair from the pooled momentum of the helicity state) applies iff ALL children of the node are final states")
+
+
 def run(ctx: Check, tree: Tree) -> None:
     ctx.decided += [
         "R-PROV over every producer merged by HelicityAdapter.create_expressions: key identity reaches the value (names are a function of final-state ids only, so equal names then carry equal quantities across topologies)",
@@ -308,6 +370,7 @@ def run(ctx: Check, tree: Tree) -> None:
     ctx.decided += [
         "R-FRAME: the helicity frame of a decaying child is BoostZ(|P|/E) RotationY(-Theta(P)) RotationZ(-Phi(P)) of the child's summed momentum P, applied to the pooled momenta; the recursion descends with that boosted pool",
         "R-LITERALID: nothing on the naming / producing path compares an id with an integer literal; R-MEMO: a lazily computed attribute of HelicityAdapter is reset by every method that changes its inputs",
+        "R-RECURSE: results of the recursion are merged into the returned mapping; descent iff the child decays further; leaf iff all children are final",
         "R-POOL: within one activation all momenta are read from the handed-in pool; it is never rebound or written (siblings do not see each other's frames)",
         "R-TERM (Dalitz): formulate_scattering_angle(i, j) equals acos of the (ij)-rest-frame geometry in Dalitz variables for all six ordered pairs, spectator = the third particle",
     ]
@@ -320,6 +383,7 @@ def run(ctx: Check, tree: Tree) -> None:
     ctx.section(check_mass_naming, ctx, tree)
     ctx.section(check_frame, ctx, tree)
     ctx.section(check_pool, ctx, tree)
+    ctx.section(check_recursion_shape, ctx, tree)
     ctx.section(check_dalitz, ctx, tree)
     ctx.section(check_names_structural, ctx, tree)
     ctx.section(check_adapter_memo, ctx, tree)
